@@ -1,4 +1,4 @@
-import GnoVerif.Proofs.C06Hist
+import GnoVerif.Proofs.C06Dangle
 /-!
 C06 — the persisted object graph stays consistent after every transaction.
 
@@ -34,7 +34,11 @@ What is proved here, for ALL heaps, realms, operands and fuel values:
   (an escaped object re-attached under a new parent gets an owner),
   `dangling_counterexample` (a callee realm's finalize deletes an object the
   caller re-attaches afterwards: a reference to a missing object is persisted);
-  hence `object_graph_consistent_statement` is refuted.
+  hence `object_graph_consistent_statement` is refuted;
+* the dangling finding is the ONLY way to a dangling reference
+  (`no_dangling_unless_deleted_attached`): over every history of valid
+  transactions that never attach an already deleted object, at every boundary
+  every slot of a counted object points to a counted object.
 
 What is NOT proved: that the concrete heap-machine programs only perform VALID
 writes (the written object, if it has an id, belongs to the executing realm and
@@ -224,6 +228,16 @@ theorem initState_marks : MarkInv initState 0 := by
   · have e : (initState.marksOf 0).newCreated = [] := by decide
     rw [e] at ha; cases ha
 
+/-- NO DANGLING REFERENCE, unless a deleted object is attached: at every boundary of every history of
+    valid transactions that never attach an already deleted object (nor an id-less object left over
+    from an earlier transaction), every slot of a counted (real, not deleted) object points to a
+    counted object.  `dangling_counterexample` is exactly a history that violates the side
+    condition: the callee's finalize deletes the object, the caller then attaches it. -/
+theorem no_dangling_unless_deleted_attached (s : State) (r : Nat) (txs : List (List Op)) (h : Quiescent2 s r)
+    (hv : validHistory2 s r txs) : NoDangling (runHistory s r txs) ∧ Quiescent2 (runHistory s r txs) r :=
+  let q := runHistory_quiescent2 r txs s h hv
+  ⟨q.noDangling, q⟩
+
 /-- the deployment state is a transaction boundary -/
 theorem initState_quiescent : Quiescent initState 0 := by
   refine ⟨initState_wf, initState_rci, fun x hu => ?_, by decide, rfl, fun x => ?_⟩
@@ -241,6 +255,17 @@ theorem initState_quiescent : Quiescent initState 0 := by
         have : initState.heap.length = 10 := by decide
         omega)]
       rfl
+
+/-- … also for the no-dangling theorem -/
+theorem initState_quiescent2 : Quiescent2 initState 0 := by
+  refine ⟨initState_quiescent, fun x hx => ?_⟩
+  have h10 : ∀ b, b < 10 → (initState.get b).deleted = false := by decide
+  by_cases h : x < 10
+  · rw [h10 x h] at hx; exact absurd hx (by decide)
+  · rw [get_default_of_ge initState x (by
+      have : initState.heap.length = 10 := by decide
+      omega)] at hx
+    exact absurd hx (by decide)
 
 /-- non-vacuity of `transaction_keeps_refcounts'`: the deployment state is a valid start, and
     `R0 = nil; R1 = nil` is a valid list of writes of realm 0 -/
